@@ -7,6 +7,14 @@ TECH_A = "bounded symbolic execution of the real Python code (CrossHair 0.0.110 
 TECH_B = "; plus direct z3 obligations generated from the live source/AST (unbounded in the stated dimension)"
 
 CLAIMED = {
+    "C01": dict(
+        text="Bounded symbolic model checking of structural selection: a filter-free query is built through the public constructors from 30 templates (every selector kind, multi-selector segments with duplicates, child and descendant segments, up to 3 segments) with every index/slice integer a solver variable over +/-(2^53-1) (slice parts present or omitted) and names symbolic choices; the JSON value is a symbolic tree (symbolic shape choices over arrays/objects/scalars, symbolic member names and order, symbolic leaves); the real finditer/resolve code runs on it and the yielded (location, value) sequence must equal the RFC 9535 reference evaluation - same nodes, same order, duplicates kept, identical objects, every location leading from the root to the value. Spelling obligations (any single-character variation of the filter-free seeds that is valid parses to the RFC reading) complete the parse half.",
+        note="Trusted: CrossHair/z3, the reference evaluator vtools/ref/evalref.py (self-tested against every example in the repository's tests), M1/M2 slice models. Bounds: documents depth<=2 width<=2 (width 3 for one-level templates), names from a 2-3 name alphabet, int leaves; templates with a slice in a multi-segment/descendant position run in the thorough tier only.",
+        tech=TECH_A, design="§4 C01"),
+    "C02": dict(
+        text="Bounded symbolic model checking of filter selection: a pool of 61 filter queries (existence tests on '@', '@.a', '$'-rooted queries at nesting depth 1 and 2, '!', '&&', '||', every parenthesisation of three operands, comparisons and function calls as atoms, filters beside other selectors and in descendant segments) is compiled by the real parser and evaluated by the real code on symbolic JSON values whose child under test ranges over every JSON kind (null, booleans, unbounded ints, real-valued floats, strings, arrays/objects of symbolic scalars - so 0, false, \"\", [] and {} are in the domain), on arrays/objects of up to 3 symbolic children (iteration and order) and on scalar roots; the selected (location, value) sequence must equal the reference evaluation of the RFC reading of the same text. Accept-mode hole obligations assert the RFC grouping of the parsed expression for single-character variations of the logic seeds.",
+        note="Trusted: CrossHair/z3, the reference parser/evaluator (self-tested), floats as reals, the foreign regex engine modelled by Python's re for the two dot-free patterns in the pool. Outside: filters not in the pool, deeper/wider children.",
+        tech=TECH_A, design="§4 C02"),
     "C12": dict(
         text="Bounded symbolic model checking of compile -> str -> compile -> str on prefix + k symbolic characters + suffix, on every path where the RFC reference finds the query valid: str(compiled) must be derivable and valid for the reference recogniser, its RFC reading and its recompiled normal form must equal the original's (same names, integers, literal values, selectors and the same grouping of !, &&, ||, comparisons - hence the same nodes on every value), and serialising again must give the identical text. Holes cover every position of a corpus containing every nesting of !, &&, ||, comparisons, parentheses, calls and embedded filters, the terminal classes of names and string literals over all characters, and numeric spellings.",
         note="Trusted: CrossHair/z3, the reference model, M5 json.dumps(str, ensure_ascii=False) as per-character escaping (validated for all scalar values each run), f-string formatting of objects routed through the symbolic-aware str(); float(<numeral>) is concrete per path in this check (digits fork-enumerated) because double rounding is the subject. 'Same node selection' is derived from normal-form equality (evaluation reads only those fields; omitted slice step = 1 is C07's obligation, numeric kind-insensitivity C06's). Outside: literals beyond the exactly representable range.",
